@@ -797,21 +797,40 @@ def clause_read_merge(R, F, scans=("get_range", "all")):
             # the disk read must be unreachable once the `Some` edge of the cache lookup is taken, and dominated by the lookup
             cg = cache_get[0]
             ok = fn.dominates(cg.bb, disk_get[0].bb)
-            sw = fn.succ(cg.bb)[0]
-            t = fn.term(sw)
+            # the decision "is there an in-memory entry for this key" : a switch on the discriminant of the cache lookup's
+            # result, possibly through presence-preserving adapters (map / as_ref / cloned / copied).  `and_then` / `flatten`
+            # / `filter` conflate "no entry" with "entry whose latest value is None" and are not accepted.
+            PRESERVING = ("map", "as_ref", "cloned", "copied", "as_deref")
             some_targets = []
-            if t["k"] == "switch":
+            dec = None
+            for b in range(len(fn.blocks)):
+                t = fn.term(b)
+                if t["k"] != "switch" or fn.is_cleanup(b):
+                    continue
                 d = origin(fn, t["discr"])
+                if d[0] != "discr":
+                    continue
+                inner = d[1]
+                while True:
+                    while inner[0] in ("ref", "deref", "cast"):
+                        inner = inner[1]
+                    if inner[0] == "call" and inner[1].split("::")[-1] in PRESERVING and inner[2]:
+                        inner = inner[2][0]
+                        continue
+                    break
+                if not (inner[0] == "call" and inner[1].split("::")[-1] == "get" and mentions(inner, ".cache") and not mentions(inner, "cache_db")):
+                    continue
+                dec = b
                 for v, tb in t["targets"]:
-                    names = [n for (n, val) in (d[3] if d[0] == "discr" and len(d) > 3 else ()) if val == v]
+                    names = [n for (n, val) in (d[3] if len(d) > 3 and d[3] else ()) if val == v]
                     if "Some" in names:
                         some_targets.append(tb)
                 if not some_targets and [v for v, _ in t["targets"]] == [0]:
                     some_targets.append(t["otherwise"])
             hit_reach = set()
-            for s in some_targets:
-                hit_reach |= fn.reachable(s)
-            ok = ok and bool(some_targets) and disk_get[0].bb not in hit_reach
+            for s2 in some_targets:
+                hit_reach |= fn.reachable(s2)
+            ok = ok and dec is not None and bool(some_targets) and disk_get[0].bb not in hit_reach and fn.dominates(dec, disk_get[0].bb)
         R.ob(ok, "READ-MERGE", fn.where(), "READ-MERGE|%s.%s" % (tsuf, meth),
              "%s::%s does not read the cache first and the disk only on a cache miss" % (tsuf, meth),
              sample={"rule": "READ-MERGE point read", "fn": fn.name})
